@@ -51,8 +51,8 @@ def nontrivial(world):
 
 
 def run_shard(ctx):
-    n = 60 if ctx.tier == 'quick' else 1500
-    ctx.set_budget(75 if ctx.tier == 'quick' else 1500)
+    n = 60 if ctx.tier == 'quick' else 6000
+    ctx.set_budget(75 if ctx.tier == 'quick' else 1100)
     run_histories(ctx, PROP, strategy(), checkers, nontrivial, n)
 
 
